@@ -131,6 +131,7 @@ void Engine::log(std::string const &m) {
   std::lock_guard<std::mutex> g(log_mu_);
   n_log++;
   log_lines.push_back(m);
+  { static const bool echo = getenv("CVSIM_ECHO_LOG") != nullptr; if (echo) fprintf(stderr, "LOG: %s", m.c_str()); }
   if ((int)log_lines.size() > cfg.log_keep) log_lines.pop_front();
 }
 void Engine::error(std::string const &m) {
